@@ -360,7 +360,7 @@ func (e *Env) resolveCallee(call *ast.CallExpr, st *State) callee {
 }
 
 func (e *Env) evalCallWith(call *ast.CallExpr, st *State, args []Value) Value {
-	if e.Top && !st.dead {
+	if (e.Top || e.litOfTop()) && !st.dead {
 		if ord, ok := e.C.callOrd[call.Pos()]; ok && e.C.Contract != nil && len(e.C.Contract.Ats) > 0 {
 			e.C.runAts(e, st, "before call "+ord, nil)
 		}
@@ -369,14 +369,20 @@ func (e *Env) evalCallWith(call *ast.CallExpr, st *State, args []Value) Value {
 	// call counters ("count (*DB).writeJournal"): advanced after the callee's own effects
 	if !st.dead {
 		if cl := e.resolveCallee(call, st); cl.fn != nil {
+			name := ""
 			if fi := e.C.W.ByObj[cl.fn]; fi != nil && e.C.W.countedCall(fi) {
-				key := "G$calls." + fi.Short
+				name = fi.Short
+			} else if fi == nil && e.C.W.countedExt(extKey(cl.fn)) {
+				name = extKey(cl.fn)
+			}
+			if name != "" {
+				key := "G$calls." + name
 				arr := e.C.heapGet(st, key, SArr(SInt, SInt))
 				e.C.heapSet(st, key, Store(arr, IntC(0), IAdd(Select(arr, IntC(0)), IntC(1))))
 			}
 		}
 	}
-	if e.Top && !st.dead {
+	if (e.Top || e.litOfTop()) && !st.dead {
 		if ord, ok := e.C.callOrd[call.Pos()]; ok && e.C.Contract != nil && len(e.C.Contract.Ats) > 0 {
 			e.C.runAts(e, st, "call "+ord, nil)
 		}
@@ -405,6 +411,7 @@ func (e *Env) evalCallWith0(call *ast.CallExpr, st *State, args []Value) Value {
 		recvVal = fc.recv
 	} else if cl.recv != nil && !strings.HasPrefix(cl.full, "(*sync.") {
 		recvVal = e.eval(cl.recv, st)
+		recvVal = e.promoteRecv(call, recvVal, st)
 	}
 	// protocol layer (locks etc.)
 	if v, handled := c.protoCall(e, st, call, cl, recvVal, args); handled {
@@ -429,6 +436,48 @@ func (e *Env) evalCallWith0(call *ast.CallExpr, st *State, args []Value) Value {
 	}
 	c.havocForCall(e, st, cl.fn, call)
 	return e.resultFresh(call, st, cl)
+}
+
+// promoteRecv walks the embedded fields of a promoted method call (x.M() where M belongs to an embedded field).
+func (e *Env) promoteRecv(call *ast.CallExpr, recvVal Value, st *State) Value {
+	c := e.C
+	sx, ok := stripParens(call.Fun).(*ast.SelectorExpr)
+	if !ok {
+		return recvVal
+	}
+	sel := e.Info.Selections[sx]
+	if sel == nil || sel.Kind() != types.MethodVal || len(sel.Index()) < 2 {
+		return recvVal
+	}
+	curT := sel.Recv()
+	cur := recvVal
+	path := sel.Index()
+	for _, fi := range path[:len(path)-1] {
+		s := structOf(curT)
+		if s == nil {
+			return recvVal
+		}
+		f := s.Field(fi)
+		switch v := cur.(type) {
+		case *Term:
+			owner := curT
+			if p, ok := owner.Underlying().(*types.Pointer); ok {
+				owner = p.Elem()
+			}
+			if _, isStruct := f.Type().Underlying().(*types.Struct); isStruct {
+				cur = c.embRef(owner, f, v)
+				curT = types.NewPointer(f.Type())
+				continue
+			}
+			cur = c.loadField(st, v, owner, f)
+		case *StructV:
+			cur = v.F[f.Name()]
+		default:
+			return recvVal
+		}
+		curT = f.Type()
+	}
+	return cur
 }
 
 func (e *Env) resultFresh(call *ast.CallExpr, st *State, cl callee) Value {
